@@ -140,6 +140,11 @@ class LSym:
         return _zr(T.sqrt(_zr(x)))
 
     @staticmethod
+    def div(a, b):
+        """quotient as the engine's defined symbol (shared with the code under test when the arguments agree)"""
+        return _zr(T.div(_zr(a), _zr(b)))
+
+    @staticmethod
     def cossin(x):
         c, s = T.cossin(_zr(x) if not isinstance(x, (int, float, Fraction)) else T.exact(x))
         return _zr(c), _zr(s)
@@ -235,6 +240,9 @@ class LConc:
 
     def sqrt(self, x):
         return math.sqrt(max(float(x), 0.0))
+
+    def div(self, a, b):
+        return float(a) / float(b)
 
     def cossin(self, x):
         return math.cos(float(x)), math.sin(float(x))
